@@ -570,7 +570,11 @@ impl Exec {
                         }
                         self.emit(format!("judge.C10list {}", show_list(&raw_listing, show_order)), "J C10 ok");
                     }
-                    Ok(Err(e)) => self.emit(line_in, format!("{} err={}", t[0], e.replace(' ', "_"))),
+                    Ok(Err(e)) => {
+                        self.emit(line_in, format!("{} err={}", t[0], e.replace(' ', "_")));
+                        // C10: rebuilding a level from its own form always succeeds
+                        self.emit(format!("judge.C10err {kind}"), "J C10 ok");
+                    }
                     Err(_) => self.emit(line_in, "PANIC"),
                 }
             }
@@ -682,6 +686,8 @@ impl Exec {
                     let o2 = crate::jsonc::dec_by_type_road(ty, &text, route).unwrap_or_else(|| "?".into());
                     if o2 != out {
                         self.emit(format!("json.dec {ty} {}", crate::codec::hex(&text)), format!("jparsed road{route} {o2}"));
+                        let want = if *ty == "leveldata" { crate::jsonc::leveldata_expect(v) } else { v.to_string() };
+                        self.emit(format!("judge.C17 {ty} {want} {o2}"), "J C17 ok");
                     }
                 }
                 // a level's aggregates are derived and its listing canonical
